@@ -199,8 +199,20 @@ def part_a(chk, asan, quick):
 
 
 # ---------------------------------------------------------------- part B ----
-DESC = {"looms": [{"name": "L", "cpus": [(0, 0), (1, 1)],
-                   "procs": [{"pid": 1, "appid": 3, "rank": 2, "nranks": 4, "threads": [10, 11]}]}]}
+def _desc(rank):
+    p = {"pid": 1, "appid": 3, "threads": [10, 11]}
+    if rank is not None:
+        p["rank"], p["nranks"] = rank, 4
+    return {"looms": [{"name": "L", "cpus": [(0, 0), (1, 1)], "procs": [p]}]}
+
+
+# the rank row must follow the body like the others, also for rank 0 and without rank
+DESCS = [_desc(2), _desc(0), _desc(None)]
+DESC = DESCS[0]
+
+
+def desc_of(word):
+    return DESCS[(len(word) + sum(len(p) for (_, _, p) in word)) % 3] if word else DESCS[1]
 KEYS = [("L", 1, 10), ("L", 1, 11)]
 
 
@@ -236,8 +248,8 @@ def build_hist(mc, word):
     return [(5000 + 3 * i, k, m, p, j) for i, (k, m, p, j) in enumerate(evs)]
 
 
-def model_word(mc, hist):
-    m = refemu.FullSystem(DESC, mc, {})
+def model_word(mc, hist, desc=None):
+    m = refemu.FullSystem(desc or DESC, mc, {})
     tv, cv = [], []
     for n, (c, k, mcv, p, j) in enumerate(hist):
         try:
@@ -276,12 +288,13 @@ def run_e2e(case):
     chk, build = _CTX["chk"], _CTX["plain"]
     mc, word = case
     hist = build_hist(mc, word)
-    bad, tv, cv = model_word(mc, hist)
+    desc = desc_of(word)
+    bad, tv, cv = model_word(mc, hist, desc)
     wd = os.path.join(chk.scratch, "t-%d" % os.getpid())
     res = {"case": case, "viol": None, "acc": None}
     try:
         shutil.rmtree(wd, ignore_errors=True)
-        tracegen.write_trace(wd, DESC, hist, require=histgen.require_of(mc))
+        tracegen.write_trace(wd, desc, hist, require=histgen.require_of(mc))
         r = emu.emu(build, wd, timeout=60)
         if r.timeout:
             res["viol"] = ("inconclusive", "timeout"); return res
